@@ -364,6 +364,38 @@ def run(ctx):
         calls = [{"fn": "f", "args": {n: rng.choice([1, 2, 3, 5, 7, 11, 13, 4, 9, -3, 0] if rng.random() < 0.8 else [1, 2, 3, 5, 7]) for n in names}} for _ in range(3)]
         vjobs.append(vmcases.job(text, calls))
     vres = ctx.run_impl("compile_impl.py", vjobs, nworkers=16)
+    # ---- a binary minus written tight against a literal (`a0 -7 % a1`, `a0-7*a1`, a line break before the minus): the lexer may read a signed
+    #      literal and the parser then rejects the text; if the text is accepted it must group like `a0 - 7 % a1`
+    tgroups = []
+    for o2 in ["%", "*", "/", "+", "<"]:
+        for lit in ("7", "2"):
+            ref = "a0 - %s %s a1" % (lit, o2)
+            tgroups.append((ref, ["a0 -%s %s a1" % (lit, o2), "a0-%s%sa1" % (lit, o2), "a0\n-%s %s a1" % (lit, o2), "a0 -%s%sa1" % (lit, o2), "a0 * 3 -%s %s a1" % (lit, o2)],
+                            "a0 * 3 - %s %s a1" % (lit, o2)))
+    tcalls = [{"fn": "f", "args": {"a0": x, "a1": y}} for x, y in ((10, 3), (-5, 4), (7, 7), (0, 2))]
+    tjobs, tmeta = [], []
+    for ref, variants, ref2 in tgroups:
+        for which, texts in ((ref, variants[:4]), (ref2, variants[4:])):
+            for t in [which] + texts:
+                tjobs.append(vmcases.job("export function f(int a0, int a1) -> int { return %s; }" % t, tcalls)); tmeta.append((which, t))
+    tres = ctx.run_impl("compile_impl.py", tjobs, nworkers=8)
+    tight_bad, tight = [], {"texts": len(tjobs), "accepted": 0, "rejected_as_syntax_error": 0}
+    refres = {}
+    for (which, t), r in zip(tmeta, tres):
+        if t == which:
+            refres[which] = r
+    for (which, t), j, r in zip(tmeta, tjobs, tres):
+        if t == which:
+            continue
+        if not r["accept"]:
+            if r["how"].get("stage") in ("parser", "lexer", "parse", "syntax") or r.get("syntax_error") or "yntax" in json.dumps(r["how"]):
+                tight["rejected_as_syntax_error"] += 1
+            else:
+                tight_bad.append((t, which, j, r, "rejected for another reason than syntax: %s" % json.dumps(r["how"])[:200]))
+            continue
+        tight["accepted"] += 1
+        if not refres[which]["accept"] or r.get("calls") != refres[which].get("calls"):
+            tight_bad.append((t, which, j, r, "groups differently from `%s`: %s vs %s" % (which, json.dumps(r.get("calls"))[:200], json.dumps(refres[which].get("calls"))[:200])))
     blocks, vmeta, rejected = [], [], 0
     for k, ((kind, items), j, r) in enumerate(zip(vcases, vjobs, vres)):
         if not r["accept"] or "ir" not in r:
@@ -429,7 +461,12 @@ def run(ctx):
     ctx.extra["value_skip_ops"] = dict(Counter(tuple(sorted(set(re.findall(r"[|&=!<>+*/%-]+", j["src"].split("return")[1])))) .__str__() for (k, j, r), c in zip(vmeta, vcodes) if c is not None and c & 8).most_common(12))
     ctx.extra["lexer_cases"] = {"texts": len(llines), "layout": sum(1 for m in lmeta2 if m[0] == "layout"), "adjacent": sum(1 for m in lmeta2 if m[0] == "adjacent"), "differ": len(lbad)}
     ctx.extra["value_cases"] = {"run": len(blocks), "rejected_by_typing": rejected, "spec_skipped": sum(1 for c in vcodes if c is not None and c & 8)}
-    if bad_spec:
+    ctx.extra["tight_minus_cases"] = tight
+    if tight_bad:
+        t, which, j, r, why = tight_bad[0]
+        ctx.violation("failing-input", {"what": "an accepted expression with a minus written tight against a literal does not group like the same tokens spaced out", "source": j["src"],
+                                        "reference_layout": which, "calls": j["calls"], "observed": r.get("calls"), "why": why, "count": len(tight_bad)})
+    elif bad_spec:
         k, l, t, lx = min(bad_spec, key=lambda x: len(x[2]))
         ctx.violation("failing-input", {"what": "the tree built by the parser is not the grouping prescribed by the precedence levels", "case_kind": k, "layout": l, "source": t,
                                         "expression_tokens": lx, "count": len(bad_spec)})
